@@ -63,6 +63,26 @@ def _run_one(args):
         r = pipeline.EnvResult(ad.name)
         r.violations.append({"property": pid, "env": ad.name, "monitor": "library-raised", "inst": {"where": where},
                              "actions": [], "detail": "%s: %s" % (type(e).__name__, str(e)[:300])})
+    # escalation: the real code disagrees with the implementation model (trace / behaviour-set drift) but no monitor of
+    # this property failed in the small quick family -> explore the thorough family of THIS environment right away
+    # (never happens on a tree the model follows, so the quick tier stays quick)
+    try:
+        drifted = any(d.get("kind") in ("trace", "behaviour-sets") for d in r.drift)
+        if tier == "quick" and drifted and not any(v["property"] == pid for v in r.violations) \
+                and os.environ.get("VERIF_NO_ESCALATE") != "1":
+            r2 = pipeline.run_env(ad, "thorough", seed, stages=ENV_STAGES[pid])
+            r2.notes.append("escalated from quick to thorough because of model drift")
+            r2.stats["escalated"] = 1
+            r2.drift = r.drift + r2.drift
+            r = r2
+    except tlc.TLCError as e:
+        return {"tag": tag, "error": "TLC (escalation): %s" % e}
+    except Exception as e:
+        where = crash_site(e)
+        if where is None:
+            return {"tag": tag, "error": traceback.format_exc()[-2000:]}
+        r.violations.append({"property": pid, "env": ad.name, "monitor": "library-raised", "inst": {"where": where},
+                             "actions": [], "detail": "%s: %s" % (type(e).__name__, str(e)[:300])})
     r.stats["wall_s"] = round(time.time() - t1, 1)
     return {"tag": tag, "env": r.env, "violations": r.violations, "drift": r.drift, "notes": r.notes, "stats": r.stats,
             "samples": r.samples, "coverage": r.coverage}
